@@ -114,7 +114,8 @@ DeviationNames ==
       "Epub!TableTextDropped",       \* text inside tables is neither in the text nor (nested) in the tables
       "Rtf!DeletedLeaks",            \* {\deleted ...} groups are not skipped
       "Xlsx!UnnamedHeaderPlaceholder",
-      "Odt!TextboxParagraphsGlued" }      \* paragraphs inside a text box are concatenated without separator   \* empty cells of the first row are rendered as "Unnamed: <col>"
+      "Odt!TextboxParagraphsGlued",
+      "Ppt!RawFallback" }                 \* no slide has text: the raw-text fallback collects every text atom (speaker notes too)      \* paragraphs inside a text box are concatenated without separator   \* empty cells of the first row are rendered as "Unnamed: <col>"
 
 \* does deviation dv apply to token atom a in format fmt?  [min, max] occurrence bounds and leak permission
 InDomain(dv, fmt, a) ==
@@ -125,6 +126,7 @@ InDomain(dv, fmt, a) ==
       [] dv = "Html!NestedTableRepeated" -> fmt \in {"html", "mhtml"} /\ "tbl.nested" \in a[4]
       [] dv = "Epub!TableTextDropped"    -> fmt = "epub" /\ "tbl" \in a[4]
       [] dv = "Rtf!DeletedLeaks"         -> fmt = "rtf" /\ a[3] = "DEL"
+      [] dv = "Ppt!RawFallback"          -> fmt = "ppt" /\ a[3] = "SPEAKERNOTE"
       [] OTHER                           -> FALSE
 
 MinCount(fmt, a, dev) ==
@@ -135,7 +137,7 @@ MinCount(fmt, a, dev) ==
 MaxCount(fmt, a, dev) ==
     IF Req(fmt, a[3]) = "DONTCARE" THEN 99
     ELSE IF Req(fmt, a[3]) = "MUSTNOT" THEN
-        (IF \E dv \in dev : dv \in {"Odt!TrackedDeletionLeaks", "Rtf!DeletedLeaks"}
+        (IF \E dv \in dev : dv \in {"Odt!TrackedDeletionLeaks", "Rtf!DeletedLeaks", "Ppt!RawFallback"}
                              /\ InDomain(dv, fmt, a) THEN 99 ELSE 0)
     ELSE IF \E dv \in dev : dv \in {"Docx!NestedTableRepeated", "Odt!NestedRepeated", "Html!NestedTableRepeated"}
                              /\ InDomain(dv, fmt, a) THEN 4
@@ -179,7 +181,8 @@ Fidelity(flat, fmt, obs, sep, residue, dev) ==
         strictIds == {i \in ids : Req(fmt, atom(i)[3]) = "MUST"}
         order  == SelectSeq([k \in DOMAIN toks |-> toks[k][2]], LAMBDA i : i \in strictIds /\ Count(obs, i) > 0)
         seg    == SegOf(flat, fmt, dev)
-    IN /\ \A k \in DOMAIN obs : obs[k] \in ids                                   \* nothing invented
+    IN /\ ("Ppt!RawFallback" \in dev /\ fmt = "ppt") => strictIds = {}              \* (domain of that deviation)
+       /\ \A k \in DOMAIN obs : obs[k] \in ids                                   \* nothing invented
        /\ \A i \in ids : /\ Count(obs, i) >= MinCount(fmt, atom(i), dev)          \* nothing lost
                          /\ Count(obs, i) <= MaxCount(fmt, atom(i), dev)          \* nothing doubled / leaked
        /\ FirstOcc(SelectSeq(obs, LAMBDA i : i \in strictIds), {}) = order        \* relative order kept
@@ -193,10 +196,12 @@ Fidelity(flat, fmt, obs, sep, residue, dev) ==
 JoinFormats == {"pdf", "pptx", "odp", "xlsx", "ods", "epub", "html", "mhtml", "txt", "md", "csv", "tsv", "json",
                 "odg", "eml", "mbox"}
 \* formats with one unit per source unit (page / slide / sheet / chapter / explicit RTF page)
-PagedFormats == {"pdf", "pptx", "odp", "xlsx", "ods", "epub", "rtf"}
+PagedFormats == {"pdf", "pptx", "ppt", "odp", "xlsx", "ods", "xls", "epub", "rtf"}
 
 UnitDeviationNames ==
     { "Rtf!EmptyPageDropped",         \* pages without text are skipped and later pages renumbered
+      "Ppt!RawFallback",              \* no slide has text: raw-text fallback appends another unit numbered 1
+      "Ppt!EmptySlideDropped",        \* slides without text are dropped (when any slide has text) and later ones renumbered
       "Docx!UnitsOmitTables",         \* heading-section units carry no table text at all
       "Docx!UnitsRepeatTextbox",      \* text-box paragraphs are emitted once per AlternateContent branch and level
       "Odt!UnitsIncludeHidden",       \* tracked deletions / annotations become unit text
@@ -208,7 +213,8 @@ UnitDeviationNames ==
 \* observation of one unit: [n, obs, sep, residue, heads (tokens of the heading path), tbl (tokens in unit tables)]
 \* Paged formats: unit k mirrors source unit k.
 PagedUnits(d, fmt, us, dev) ==
-    LET keep == IF "Rtf!EmptyPageDropped" \in dev /\ fmt = "rtf"
+    LET dropEmpty == ("Rtf!EmptyPageDropped" \in dev /\ fmt = "rtf") \/ ("Ppt!EmptySlideDropped" \in dev /\ fmt = "ppt")
+        keep == IF dropEmpty
                 THEN SelectSeq([k \in DOMAIN d.units |-> k],
                                LAMBDA k : \E a \in Range(Tokens(FlatUnitBody(d.units[k]))) : Req(fmt, a[3]) = "MUST")
                 \* a source position that is not a unit of this kind (EPUB spine item that is no chapter: an SVG page,
@@ -216,7 +222,7 @@ PagedUnits(d, fmt, us, dev) ==
                 ELSE SelectSeq([k \in DOMAIN d.units |-> k], LAMBDA k : d.units[k].gap = 0)
     IN /\ Len(us) = Len(keep)                                        \* one unit per page / slide / sheet / chapter
        /\ \A k \in DOMAIN us :
-            /\ us[k].n = (IF "Rtf!EmptyPageDropped" \in dev /\ fmt = "rtf" THEN k ELSE keep[k])   \* 1-based source position
+            /\ us[k].n = (IF dropEmpty THEN k ELSE keep[k])                       \* 1-based source position
             /\ Fidelity(FlatUnit(d.units[keep[k]]), fmt, us[k].obs, us[k].sep, us[k].residue, dev)
 
 \* The heading path of a section unit is the chain of open headings: heading i is an ancestor of heading j iff it
@@ -272,8 +278,12 @@ FlowUnits(d, fmt, us, dev) ==
        /\ \A k \in DOMAIN us : \A w \in DOMAIN us[k].residue : AllowedResidue(fmt, us[k].residue[w], dev)
        /\ \A k \in DOMAIN us : HeadPathOK(toks, us[k].heads)
 
+NoSlideText(d, fmt) == \A k \in DOMAIN d.units : \A a \in Range(Tokens(FlatUnitBody(d.units[k]))) : Req(fmt, a[3]) # "MUST"
+
 Units(d, fmt, us, full, joinok, dev) ==
-    /\ IF fmt \in PagedFormats /\ ~(fmt = "rtf" /\ Len(d.units) = 1)
+    /\ IF "Ppt!RawFallback" \in dev /\ fmt = "ppt" /\ NoSlideText(d, fmt)
+       THEN Len(us) >= Len(d.units)         \* as built: the empty slides plus one more unit numbered 1 holding the raw text
+       ELSE IF fmt \in PagedFormats /\ ~(fmt = "rtf" /\ Len(d.units) = 1)
        THEN PagedUnits(d, fmt, us, dev) ELSE FlowUnits(d, fmt, us, dev)
     /\ fmt \in JoinFormats => joinok                  \* get_full_text() = trimmed newline-join of the unit texts
 
